@@ -4,7 +4,7 @@ from . import gen_c01, oracles
 
 class GraphProp:
     def __init__(self, pid, gen, owner, compare, reach, signature=None, fault_rate=0.12,
-                 simplify=None):
+                 simplify=None, variants=None):
         self.pid = pid
         self.gen = gen
         self.owner = owner
@@ -13,6 +13,7 @@ class GraphProp:
         self.signature = signature or default_signature
         self.fault_rate = fault_rate
         self.simplify = simplify
+        self.variants = variants
 
 
 def default_signature(case, violation):
@@ -39,7 +40,7 @@ def _register():
     try:
         from . import gen_c07
         GRAPH_PROPS["C07"] = GraphProp("C07", gen_c07.gen_case, gen_c07.owner, gen_c07.compare,
-                                       gen_c07.reach, fault_rate=0.10)
+                                       gen_c07.reach, fault_rate=0.10, variants=gen_c07.variants)
     except ImportError:
         pass
 
